@@ -138,6 +138,9 @@ def run(chk):
     bb_guard = isinstance(first, ast.If) and "blackboxes" in norm(first.test) and first.body and isinstance(first.body[-1], ast.Raise)
     chk.ob("C18.P.blackbox-guard-first", "acyclic_unroll::blackbox guard", bb_guard, file=FILE, func="acyclic_unroll", line=first.lineno, fact={"first_statement": norm(first)[:80]}, expect="if c.blackboxes: raise ValueError")
 
+    from ..structural import chain_index_rule
+
+    chain_index_rule(chk, repo, "C18.S.copy-index", FILE, "acyclic_unroll", "i")
     # ---- S: template evaluation ----------------------------------------
     P = Package(repo)
     n = 0
